@@ -1252,3 +1252,21 @@ Theorem C20_header_every_packet_5 :
        classified5 prof (cb' :: tl (as_ref vb)) e.
 Proof. exact Faults.C20_header_every_packet_5. Qed.
 Print Assumptions C20_header_every_packet_5.
+
+(* ---------------- hand-written addendum: every `_all` classification also holds under EVERY delivery
+   schedule of the frame followed by anything (C05: the poll result depends on the bytes only) ---------------- *)
+From MQ Require Import Proofs.PollSched Proofs.FrontAgree.
+Theorem C20_classified3_any_schedule : forall prof frame e, classified3 prof frame e ->
+  forall l t sfx, bytes_of l = frame ++ sfx -> rr_res V3.packet (F3.poll_drive prof l t) = Some (Err e).
+Proof.
+  intros prof frame e (_ & _ & Hp) l t sfx Hl.
+  destruct (FrontAgree.C05_v3_same_as_one_read prof l t) as [E _]. rewrite E, Hl. exact (Hp t sfx).
+Qed.
+Print Assumptions C20_classified3_any_schedule.
+Theorem C20_classified5_any_schedule : forall prof frame e, classified5 prof frame e ->
+  forall l t sfx, bytes_of l = frame ++ sfx -> rr_res V5.packet (F5.poll_drive prof l t) = Some (Err e).
+Proof.
+  intros prof frame e (_ & _ & Hp) l t sfx Hl.
+  destruct (FrontAgree.C05_v5_same_as_one_read prof l t) as [E _]. rewrite E, Hl. exact (Hp t sfx).
+Qed.
+Print Assumptions C20_classified5_any_schedule.
